@@ -22,21 +22,29 @@ SELECTORS = ("lo", "hi", "lo1", "hi1", "mid", "rnd")
 class Schedule:
     """Decides the selector of draw number i.  Pure data: {policy, seed, p, overrides}."""
 
-    def __init__(self, policy="rnd", seed=0, p=0.3, overrides=None):
+    def __init__(self, policy="rnd", seed=0, p=0.3, overrides=None, clock=None, entropy="rnd"):
         self.policy = policy
         self.seed = seed
         self.p = p
         self.overrides = dict(overrides or {})
+        self.clock = clock          # JSON of a SimClockScript, or None (default clock)
+        self.entropy = entropy      # "rnd" | "zero" | "ones"  (payload of the first uuid4)
         self._mix = None
 
     def to_json(self):
-        return {"policy": self.policy, "seed": self.seed, "p": self.p,
-                "overrides": {str(k): v for k, v in sorted(self.overrides.items())}}
+        j = {"policy": self.policy, "seed": self.seed, "p": self.p,
+             "overrides": {str(k): v for k, v in sorted(self.overrides.items())}}
+        if self.clock is not None:
+            j["clock"] = self.clock
+        if self.entropy != "rnd":
+            j["entropy"] = self.entropy
+        return j
 
     @classmethod
     def from_json(cls, j):
         return cls(j.get("policy", "rnd"), j.get("seed", 0), j.get("p", 0.3),
-                   {int(k): v for k, v in (j.get("overrides") or {}).items()})
+                   {int(k): v for k, v in (j.get("overrides") or {}).items()},
+                   j.get("clock"), j.get("entropy", "rnd"))
 
     def reset(self):
         self._mix = _real_random.Random(derive("sched-mix", self.seed))
@@ -248,15 +256,16 @@ class World:
         self.begin(Schedule("rnd"), 0)
 
     # ---- run control
-    def begin(self, schedule, stream_seed, clock=None, entropy_seed=0, record=True):
+    def begin(self, schedule, stream_seed, record=True):
         self.schedule = schedule
         schedule.reset()
         self.stream_seed = stream_seed
         self._stream = _real_random.Random(derive("stream", stream_seed))
-        self._ent = _real_random.Random(derive("entropy", entropy_seed))
+        self._ent = _real_random.Random(derive("entropy", stream_seed))
+        self.entropy_mode = schedule.entropy
         self.draws = 0
         self.log = [] if record else None
-        self.clock = clock or SimClockScript()
+        self.clock = SimClockScript.from_json(schedule.clock) if schedule.clock else SimClockScript()
         self.clock.reset()
         self.entropy_reads = 0
         self.sites = []
